@@ -259,8 +259,8 @@ Lemma write_message_class fr last cf now chs p : Contig chs last -> 0 <= fr ->
 Proof.
   intros Hc Hfr0 Hfr Hhs Hreq. unfold write_message. destruct (rp_rel p).
   - pose proof (write_rel_class fr last cf now chs p Hc Hfr0 Hfr Hhs Hreq) as H. lazy zeta in H. tauto.
-  - pose proof (write_be_class fr last (S (length chs)) cf chs Hc p [] Hfr Hhs (Forall_nil _)) as H. lazy zeta in H.
-    set (r := write_be_loop (S (length chs)) cf chs p []) in *. clearbody r.
+  - pose proof (write_be_class fr last (S (2 * length chs)) cf chs Hc p [] Hfr Hhs (Forall_nil _)) as H. lazy zeta in H.
+    set (r := write_be_loop (S (2 * length chs)) cf chs p []) in *. clearbody r.
     destruct H as (A & B & C). unfold rp_rest, rp_static in C. injection C as C1 C2 C3 C4 C5 C6 C7.
     repeat split; try assumption; try lia.
     + rewrite C5. assumption.
